@@ -26,7 +26,11 @@ def handleCen : P String := do
   let (sp, nodes, edges) ← P.graph
   let weighted ← P.bool
   let specLimit ← P.nat
+  -- the implementation saw every weight divided by `wdiv` (a power of two); the model and the definition work on the integer
+  -- numerators: betweenness does not change under scaling, closeness is multiplied by `wdiv`
+  let wdiv ← P.nat
   P.done
+  let scaleCC (m : List (Nat × Rat)) : List (Nat × Rat) := if weighted then m.map fun kv => (kv.1, kv.2 * (wdiv : Rat)) else m
   let (so, a) := buildBoth sp nodes edges
   match so with
   | .err k => pure s!"m.build=E{k.code}"
@@ -34,7 +38,7 @@ def handleCen : P String := do
   | .ok s =>
     let m := [("build", "0"),
       ("bc0:q", pOut pRatMap (s.betweenness weighted false)), ("bc1:q", pOut pRatMap (s.betweenness weighted true)),
-      ("cc0:q", pOut pRatMap (s.closeness weighted false)), ("cc1:q", pOut pRatMap (s.closeness weighted true))]
+      ("cc0:q", pOut pRatMap ((s.closeness weighted false).map' scaleCC)), ("cc1:q", pOut pRatMap ((s.closeness weighted true).map' scaleCC))]
     let nn := a.nodeNames
     let arcs := a.arcs sp.directed weighted
     let positive := arcs.all fun x => x.2.2 > 0
@@ -45,7 +49,7 @@ def handleCen : P String := do
       else [("bc0:q", pRatMap (bcSpec nn arcs sp.directed false)), ("bc1:q", pRatMap (bcSpec nn arcs sp.directed true))]
     let sfC :=
       if nn.length > 64 || !positive then [("cc0:q", "*"), ("cc1:q", "*")]
-      else [("cc0:q", pRatMap (ccSpec nn arcs false)), ("cc1:q", pRatMap (ccSpec nn arcs true))]
+      else [("cc0:q", pRatMap (scaleCC (ccSpec nn arcs false))), ("cc1:q", pRatMap (scaleCC (ccSpec nn arcs true)))]
     let sf := sfB ++ sfC
     pure (pFields "m." m ++ "|" ++ pFields "s." sf)
 
